@@ -532,3 +532,459 @@ VARIANTS += [
  dict(name='shape-combined-locals-loop-fetch-helper-cap-lost', file=R, expect='flagged(cap)', find=LOOP0,
       replace=LOOP_LOCALS.replace(CAPFETCH, '\t\t\tfetched, err := fetchReferrerManifest(ctx, target, node)\n'), edits=[tail(sub(REFHELPER, REFCAP, ''))]),
 ]
+
+
+# ---------------------------------------------------------------------------------------------------------------
+# Second pass (held-out refactorings benign2/out-C19/1, out-C19/2, out-C11/2): classes of rewrites, each with
+# further members of the class written here and the same shapes *broken*.
+#   class A  "helper boundary of the push": pack inline / in a helper / two levels down; upload in a helper
+#   class B  "store selection in an accessor method"
+#   class C  "per-iteration work of the listing in a helper handing back a record": struct / pointer / several
+#            results; helper cut after the decode, around the decode only, per switch arm
+# ---------------------------------------------------------------------------------------------------------------
+
+PUSHFN0 = r'''func (c *repositoryClient) PushSignature(ctx context.Context, mediaType string, blob []byte, subject ocispec.Descriptor, annotations map[string]string) (blobDesc, manifestDesc ocispec.Descriptor, err error) {
+	var pusher content.Pusher = c.GraphTarget
+	if repo, ok := c.GraphTarget.(registry.Repository); ok {
+		pusher = repo.Blobs()
+	}
+	blobDesc, err = oras.PushBytes(ctx, pusher, mediaType, blob)
+	if err != nil {
+		return ocispec.Descriptor{}, ocispec.Descriptor{}, err
+	}
+	manifestDesc, err = c.uploadSignatureManifest(ctx, subject, blobDesc, annotations)
+	if err != nil {
+		return ocispec.Descriptor{}, ocispec.Descriptor{}, err
+	}
+	return blobDesc, manifestDesc, nil
+}
+'''
+
+UPLOAD0 = r'''func (c *repositoryClient) uploadSignatureManifest(ctx context.Context, subject, blobDesc ocispec.Descriptor, annotations map[string]string) (ocispec.Descriptor, error) {
+	configDesc, err := pushNotationManifestConfig(ctx, c.GraphTarget)
+	if err != nil {
+		return ocispec.Descriptor{}, fmt.Errorf("failed to push notation manifest config: %w", err)
+	}
+
+	opts := oras.PackManifestOptions{
+		Subject:             &subject,
+		ManifestAnnotations: annotations,
+		Layers:              []ocispec.Descriptor{blobDesc},
+		ConfigDescriptor:    &configDesc,
+	}
+
+	return oras.PackManifest(ctx, c.GraphTarget, oras.PackManifestVersion1_1, "", opts)
+}
+'''
+
+BLOBSTORE = r'''// blobStorage returns the storage that signature envelope blobs are read from
+// and written to: the blob store of a remote repository, or the target itself
+func (c *repositoryClient) blobStorage() content.Storage {
+	if repo, ok := c.GraphTarget.(registry.Repository); ok {
+		return repo.Blobs()
+	}
+	return c.GraphTarget
+}
+'''
+
+# the manifest upload inlined into PushSignature, options as a literal argument, store from an accessor
+PUSH_INLINED = r'''func (c *repositoryClient) PushSignature(ctx context.Context, mediaType string, blob []byte, subject ocispec.Descriptor, annotations map[string]string) (blobDesc, manifestDesc ocispec.Descriptor, err error) {
+	blobDesc, err = oras.PushBytes(ctx, c.blobStorage(), mediaType, blob)
+	if err != nil {
+		return ocispec.Descriptor{}, ocispec.Descriptor{}, err
+	}
+	configDesc, err := pushNotationManifestConfig(ctx, c.GraphTarget)
+	if err != nil {
+		return ocispec.Descriptor{}, ocispec.Descriptor{}, fmt.Errorf("failed to push notation manifest config: %w", err)
+	}
+	manifestDesc, err = oras.PackManifest(ctx, c.GraphTarget, oras.PackManifestVersion1_1, "", oras.PackManifestOptions{
+		Subject:             &subject,
+		ManifestAnnotations: annotations,
+		Layers:              []ocispec.Descriptor{blobDesc},
+		ConfigDescriptor:    &configDesc,
+	})
+	if err != nil {
+		return ocispec.Descriptor{}, ocispec.Descriptor{}, err
+	}
+	return blobDesc, manifestDesc, nil
+}
+
+''' + BLOBSTORE
+
+# the upload in a helper of its own (tail call), the manifest upload left where it is
+PUSH_BLOB_HELPER = r'''func (c *repositoryClient) PushSignature(ctx context.Context, mediaType string, blob []byte, subject ocispec.Descriptor, annotations map[string]string) (blobDesc, manifestDesc ocispec.Descriptor, err error) {
+	blobDesc, err = c.pushEnvelope(ctx, mediaType, blob)
+	if err != nil {
+		return ocispec.Descriptor{}, ocispec.Descriptor{}, err
+	}
+	manifestDesc, err = c.uploadSignatureManifest(ctx, subject, blobDesc, annotations)
+	if err != nil {
+		return ocispec.Descriptor{}, ocispec.Descriptor{}, err
+	}
+	return blobDesc, manifestDesc, nil
+}
+
+// pushEnvelope uploads the signature envelope to the blob store
+func (c *repositoryClient) pushEnvelope(ctx context.Context, envelopeMediaType string, envelope []byte) (ocispec.Descriptor, error) {
+	return oras.PushBytes(ctx, c.blobStorage(), envelopeMediaType, envelope)
+}
+
+''' + BLOBSTORE
+
+# the packing two levels down: uploadSignatureManifest pushes the config and delegates the packing
+UPLOAD_NESTED = r'''func (c *repositoryClient) uploadSignatureManifest(ctx context.Context, subject, blobDesc ocispec.Descriptor, annotations map[string]string) (ocispec.Descriptor, error) {
+	configDesc, err := pushNotationManifestConfig(ctx, c.GraphTarget)
+	if err != nil {
+		return ocispec.Descriptor{}, fmt.Errorf("failed to push notation manifest config: %w", err)
+	}
+	return packSignatureManifest(ctx, c.GraphTarget, configDesc, blobDesc, subject, annotations)
+}
+
+// packSignatureManifest packs and pushes the signature manifest
+func packSignatureManifest(ctx context.Context, dst content.Pusher, config, layer, subject ocispec.Descriptor, annotations map[string]string) (ocispec.Descriptor, error) {
+	return oras.PackManifest(ctx, dst, oras.PackManifestVersion1_1, "", oras.PackManifestOptions{
+		Subject:             &subject,
+		ManifestAnnotations: annotations,
+		Layers:              []ocispec.Descriptor{layer},
+		ConfigDescriptor:    &config,
+	})
+}
+'''
+
+BLOBFETCH0 = '''	var fetcher content.Fetcher = c.GraphTarget
+	if repo, ok := c.GraphTarget.(registry.Repository); ok {
+		fetcher = repo.Blobs()
+	}
+	sigBlob, err := content.FetchAll(ctx, fetcher, sigBlobDesc)
+'''
+BLOBFETCH_ACC = '\tsigBlob, err := content.FetchAll(ctx, c.blobStorage(), sigBlobDesc)\n'
+UPLOAD_HDR = '// uploadSignatureManifest uploads the signature manifest to the registry\n'
+
+VARIANTS += [
+ # -- class A: where the packing stands
+ dict(name='shape-push-inlined', file=R, expect='silent', find=PUSHFN0, replace=PUSH_INLINED, edits=[(R, UPLOAD_HDR + UPLOAD0, '')]),
+ dict(name='shape-push-inlined-subject-of-blob', file=R, expect='flagged(push/options/subject)', find=PUSHFN0,
+      replace=sub(PUSH_INLINED, 'Subject:             &subject,', 'Subject:             &blobDesc,'), edits=[(R, UPLOAD_HDR + UPLOAD0, '')]),
+ dict(name='shape-push-inlined-two-layers', file=R, expect='flagged(push/options/single-layer)', find=PUSHFN0,
+      replace=sub(PUSH_INLINED, '[]ocispec.Descriptor{blobDesc}', '[]ocispec.Descriptor{blobDesc, configDesc}'), edits=[(R, UPLOAD_HDR + UPLOAD0, '')]),
+ dict(name='shape-push-inlined-layer-is-subject', file=R, expect='flagged(push/options/single-layer)', find=PUSHFN0,
+      replace=sub(PUSH_INLINED, '[]ocispec.Descriptor{blobDesc}', '[]ocispec.Descriptor{subject}'), edits=[(R, UPLOAD_HDR + UPLOAD0, '')]),
+ dict(name='shape-push-inlined-config-error-ignored', file=R, expect='flagged(push/options/config)', find=PUSHFN0,
+      replace=sub(PUSH_INLINED, '\tconfigDesc, err := pushNotationManifestConfig(ctx, c.GraphTarget)\n\tif err != nil {\n\t\treturn ocispec.Descriptor{}, ocispec.Descriptor{}, fmt.Errorf("failed to push notation manifest config: %w", err)\n\t}\n',
+                  '\tconfigDesc, _ := pushNotationManifestConfig(ctx, c.GraphTarget)\n'), edits=[(R, UPLOAD_HDR + UPLOAD0, '')]),
+ dict(name='shape-push-inlined-pack-error-ignored', file=R, expect='flagged(push/)', find=PUSHFN0,
+      replace=sub(PUSH_INLINED, '\t})\n\tif err != nil {\n\t\treturn ocispec.Descriptor{}, ocispec.Descriptor{}, err\n\t}\n\treturn blobDesc, manifestDesc, nil', '\t})\n\treturn blobDesc, manifestDesc, nil'),
+      edits=[(R, UPLOAD_HDR + UPLOAD0, '')]),
+ dict(name='shape-push-inlined-returns-config', file=R, expect='flagged(push/returns)', find=PUSHFN0,
+      replace=sub(PUSH_INLINED, '\treturn blobDesc, manifestDesc, nil', '\treturn blobDesc, configDesc, nil'), edits=[(R, UPLOAD_HDR + UPLOAD0, '')]),
+ dict(name='shape-push-inlined-annotations-dropped', file=R, expect='flagged(push/options/annotations)', find=PUSHFN0,
+      replace=sub(PUSH_INLINED, '\t\tManifestAnnotations: annotations,\n', ''), edits=[(R, UPLOAD_HDR + UPLOAD0, '')]),
+ dict(name='shape-push-nested-pack', file=R, expect='silent', find=UPLOAD0, replace=UPLOAD_NESTED),
+ dict(name='shape-push-nested-pack-arguments-swapped', file=R, expect='flagged(push/options/)', find=UPLOAD0,
+      replace=sub(UPLOAD_NESTED, 'packSignatureManifest(ctx, c.GraphTarget, configDesc, blobDesc, subject, annotations)', 'packSignatureManifest(ctx, c.GraphTarget, configDesc, subject, blobDesc, annotations)'),
+      why='two levels down the blob descriptor arrives as the subject and the subject as the layer'),
+ dict(name='shape-push-nested-pack-config-as-layer', file=R, expect='flagged(push/options/single-layer)', find=UPLOAD0,
+      replace=sub(UPLOAD_NESTED, 'Layers:              []ocispec.Descriptor{layer},', 'Layers:              []ocispec.Descriptor{config},')),
+ dict(name='shape-push-nested-pack-other-descriptor-handed-up', file=R, expect='flagged(push/returns)', find=UPLOAD0,
+      replace=sub(UPLOAD_NESTED, '\treturn packSignatureManifest(ctx, c.GraphTarget, configDesc, blobDesc, subject, annotations)\n',
+                  '\tif _, err := packSignatureManifest(ctx, c.GraphTarget, configDesc, blobDesc, subject, annotations); err != nil {\n\t\treturn ocispec.Descriptor{}, err\n\t}\n\treturn configDesc, nil\n'),
+      why='the function in the middle hands up the config descriptor instead of the packed manifest\'s'),
+ dict(name='shape-push-nested-pack-version', file=R, expect='flagged(push/pack-version)', find=UPLOAD0,
+      replace=sub(UPLOAD_NESTED, 'oras.PackManifestVersion1_1', 'oras.PackManifestVersion1_0')),
+ # -- class A: the upload in a helper
+ dict(name='shape-push-blob-helper', file=R, expect='silent', find=PUSHFN0, replace=PUSH_BLOB_HELPER),
+ dict(name='shape-push-blob-helper-nested-pack', file=R, expect='silent', find=PUSHFN0, replace=PUSH_BLOB_HELPER, edits=[(R, UPLOAD0, UPLOAD_NESTED)]),
+ dict(name='shape-push-blob-helper-media-type-fixed', file=R, expect='flagged(push/blob)', find=PUSHFN0,
+      replace=sub(PUSH_BLOB_HELPER, 'oras.PushBytes(ctx, c.blobStorage(), envelopeMediaType, envelope)', 'oras.PushBytes(ctx, c.blobStorage(), "application/jose+json", envelope)')),
+ dict(name='shape-push-blob-helper-arguments-swapped', file=R, expect='flagged(push/blob)', find=PUSHFN0,
+      replace=sub(PUSH_BLOB_HELPER, 'c.pushEnvelope(ctx, mediaType, blob)', 'c.pushEnvelope(ctx, string(blob), []byte(mediaType))')),
+ dict(name='shape-push-blob-helper-error-swallowed', file=R, expect='flagged(push/blob)', find=PUSHFN0,
+      replace=sub(PUSH_BLOB_HELPER, '\treturn oras.PushBytes(ctx, c.blobStorage(), envelopeMediaType, envelope)\n', '\td, _ := oras.PushBytes(ctx, c.blobStorage(), envelopeMediaType, envelope)\n\treturn d, nil\n'),
+      why='the helper reports success whatever the upload said: it is not the upload'),
+ dict(name='shape-push-blob-helper-error-ignored-by-caller', file=R, expect='flagged(push/blob-error)', find=PUSHFN0,
+      replace=sub(PUSH_BLOB_HELPER, '\tblobDesc, err = c.pushEnvelope(ctx, mediaType, blob)\n\tif err != nil {\n\t\treturn ocispec.Descriptor{}, ocispec.Descriptor{}, err\n\t}\n', '\tblobDesc, _ = c.pushEnvelope(ctx, mediaType, blob)\n')),
+ # -- class B: the store an accessor selects
+ dict(name='shape-blob-store-accessor', file=R, expect='silent', find=BLOBFETCH0, replace=BLOBFETCH_ACC, edits=[tail(BLOBSTORE)]),
+ dict(name='shape-blob-store-accessor-manifest-store', file=R, expect='flagged(fetch/blob-store)', find=BLOBFETCH0, replace=BLOBFETCH_ACC,
+      edits=[tail(sub(BLOBSTORE, 'return repo.Blobs()', 'return repo.Manifests()'))]),
+ dict(name='shape-blob-store-accessor-foreign-store', file=R, expect='flagged(fetch/blob-store)', find=BLOBFETCH0, replace=BLOBFETCH_ACC,
+      edits=[tail(sub(BLOBSTORE, '\treturn c.GraphTarget\n', '\treturn fallbackStore\n') + '\nvar fallbackStore content.Storage\n')],
+      why='one of the accessor\'s returns is a store that is not the repository\'s target'),
+ dict(name='shape-blob-store-accessor-of-other-client', file=R, expect='flagged(fetch/blob-store)', find=BLOBFETCH0,
+      replace='\tsigBlob, err := content.FetchAll(ctx, (&repositoryClient{}).blobStorage(), sigBlobDesc)\n', edits=[tail(BLOBSTORE)]),
+]
+
+# -- class C: the per-iteration work of the listing in a helper handing back a record
+LOOP_INFO = r'''	for _, node := range predecessors {
+		if node.MediaType != artifactspec.MediaTypeArtifactManifest && node.MediaType != ocispec.MediaTypeImageManifest {
+			// not a manifest that can refer to a subject
+			continue
+		}
+		info, err := fetchReferrerInfo(ctx, target, node)
+		if err != nil {
+			return nil, err
+		}
+		if info.subject == nil || !content.Equal(*info.subject, desc) {
+			continue
+		}
+		// only keep nodes of "application/vnd.cncf.notary.signature"
+		if info.artifactType != ArtifactTypeNotation {
+			continue
+		}
+		node.ArtifactType = info.artifactType
+		node.Annotations = info.annotations
+		results = append(results, node)
+	}
+'''
+
+INFO_TYPE = r'''// referrerInfo is the part of a referrer manifest that is needed to decide
+// whether the manifest is a signature of a given subject
+type referrerInfo struct {
+	subject      *ocispec.Descriptor
+	artifactType string
+	annotations  map[string]string
+}
+'''
+
+INFO_HELPER = INFO_TYPE + r'''
+// fetchReferrerInfo fetches the manifest described by node from target and
+// extracts its subject, artifact type and annotations.
+func fetchReferrerInfo(ctx context.Context, target content.Fetcher, node ocispec.Descriptor) (referrerInfo, error) {
+	if node.Size > maxManifestSizeLimit {
+		return referrerInfo{}, fmt.Errorf("referrer node too large: %d bytes", node.Size)
+	}
+	fetched, err := content.FetchAll(ctx, target, node)
+	if err != nil {
+		return referrerInfo{}, err
+	}
+
+	if node.MediaType == artifactspec.MediaTypeArtifactManifest {
+		var artifact artifactspec.Artifact
+		if err := json.Unmarshal(fetched, &artifact); err != nil {
+			return referrerInfo{}, err
+		}
+		return referrerInfo{
+			subject:      artifact.Subject,
+			artifactType: artifact.ArtifactType,
+			annotations:  artifact.Annotations,
+		}, nil
+	}
+
+	var image ocispec.Manifest
+	if err := json.Unmarshal(fetched, &image); err != nil {
+		return referrerInfo{}, err
+	}
+	return referrerInfo{
+		subject:      image.Subject,
+		artifactType: image.Config.MediaType,
+		annotations:  image.Annotations,
+	}, nil
+}
+'''
+
+# the same helper handing back a pointer to the record
+INFO_HELPER_PTR = (INFO_HELPER.replace('(referrerInfo, error)', '(*referrerInfo, error)')
+                   .replace('return referrerInfo{}, ', 'return nil, ').replace('return referrerInfo{\n', 'return &referrerInfo{\n'))
+
+# the same helper handing back the three values as separate results, switch inside
+MULTI_HELPER = r'''// referrerFields fetches the manifest described by node and returns its
+// subject, artifact type and annotations.
+func referrerFields(ctx context.Context, target content.Fetcher, node ocispec.Descriptor) (*ocispec.Descriptor, string, map[string]string, error) {
+	if node.Size > maxManifestSizeLimit {
+		return nil, "", nil, fmt.Errorf("referrer node too large: %d bytes", node.Size)
+	}
+	fetched, err := content.FetchAll(ctx, target, node)
+	if err != nil {
+		return nil, "", nil, err
+	}
+	switch node.MediaType {
+	case artifactspec.MediaTypeArtifactManifest:
+		var artifact artifactspec.Artifact
+		if err := json.Unmarshal(fetched, &artifact); err != nil {
+			return nil, "", nil, err
+		}
+		return artifact.Subject, artifact.ArtifactType, artifact.Annotations, nil
+	case ocispec.MediaTypeImageManifest:
+		var image ocispec.Manifest
+		if err := json.Unmarshal(fetched, &image); err != nil {
+			return nil, "", nil, err
+		}
+		return image.Subject, image.Config.MediaType, image.Annotations, nil
+	}
+	return nil, "", nil, fmt.Errorf("unsupported referrer media type %q", node.MediaType)
+}
+'''
+LOOP_MULTI = (LOOP_INFO.replace('info, err := fetchReferrerInfo(ctx, target, node)', 'subject, artifactType, annotations, err := referrerFields(ctx, target, node)')
+              .replace('info.subject', 'subject').replace('info.artifactType', 'artifactType').replace('info.annotations', 'annotations'))
+
+# the helper cut around the decode only: cap and fetch stay in the loop, the helper gets the media type and the bytes
+DECODE_HELPER = INFO_TYPE + r'''
+// decodeReferrer decodes a referrer manifest of the given media type
+func decodeReferrer(manifestMediaType string, manifestJSON []byte) (referrerInfo, error) {
+	if manifestMediaType == ocispec.MediaTypeImageManifest {
+		var image ocispec.Manifest
+		if err := json.Unmarshal(manifestJSON, &image); err != nil {
+			return referrerInfo{}, err
+		}
+		return referrerInfo{subject: image.Subject, artifactType: image.Config.MediaType, annotations: image.Annotations}, nil
+	}
+	var artifact artifactspec.Artifact
+	if err := json.Unmarshal(manifestJSON, &artifact); err != nil {
+		return referrerInfo{}, err
+	}
+	return referrerInfo{subject: artifact.Subject, artifactType: artifact.ArtifactType, annotations: artifact.Annotations}, nil
+}
+'''
+LOOP_DECODE = sub(LOOP_INFO, '\t\tinfo, err := fetchReferrerInfo(ctx, target, node)\n\t\tif err != nil {\n\t\t\treturn nil, err\n\t\t}\n',
+                  '\t\tif node.Size > maxManifestSizeLimit {\n\t\t\treturn nil, fmt.Errorf("referrer node too large: %d bytes", node.Size)\n\t\t}\n'
+                  '\t\tfetched, err := content.FetchAll(ctx, target, node)\n\t\tif err != nil {\n\t\t\treturn nil, err\n\t\t}\n'
+                  '\t\tinfo, err := decodeReferrer(node.MediaType, fetched)\n\t\tif err != nil {\n\t\t\treturn nil, err\n\t\t}\n')
+
+# one helper per switch arm (no media-type test inside), the switch and the filter left as they are
+ARM_HELPERS = INFO_TYPE + r'''
+func artifactReferrerInfo(ctx context.Context, target content.Fetcher, node ocispec.Descriptor) (referrerInfo, error) {
+	if node.Size > maxManifestSizeLimit {
+		return referrerInfo{}, fmt.Errorf("referrer node too large: %d bytes", node.Size)
+	}
+	fetched, err := content.FetchAll(ctx, target, node)
+	if err != nil {
+		return referrerInfo{}, err
+	}
+	var artifact artifactspec.Artifact
+	if err := json.Unmarshal(fetched, &artifact); err != nil {
+		return referrerInfo{}, err
+	}
+	return referrerInfo{subject: artifact.Subject, artifactType: artifact.ArtifactType, annotations: artifact.Annotations}, nil
+}
+
+func imageReferrerInfo(ctx context.Context, target content.Fetcher, node ocispec.Descriptor) (referrerInfo, error) {
+	if node.Size > maxManifestSizeLimit {
+		return referrerInfo{}, fmt.Errorf("referrer node too large: %d bytes", node.Size)
+	}
+	fetched, err := content.FetchAll(ctx, target, node)
+	if err != nil {
+		return referrerInfo{}, err
+	}
+	var image ocispec.Manifest
+	if err := json.Unmarshal(fetched, &image); err != nil {
+		return referrerInfo{}, err
+	}
+	return referrerInfo{subject: image.Subject, artifactType: image.Config.MediaType, annotations: image.Annotations}, nil
+}
+'''
+LOOP_ARMS = r'''	for _, node := range predecessors {
+		switch node.MediaType {
+		case artifactspec.MediaTypeArtifactManifest:
+			info, err := artifactReferrerInfo(ctx, target, node)
+			if err != nil {
+				return nil, err
+			}
+			if info.subject == nil || !content.Equal(*info.subject, desc) {
+				continue
+			}
+			node.ArtifactType = info.artifactType
+			node.Annotations = info.annotations
+		case ocispec.MediaTypeImageManifest:
+			info, err := imageReferrerInfo(ctx, target, node)
+			if err != nil {
+				return nil, err
+			}
+			if info.subject == nil || !content.Equal(*info.subject, desc) {
+				continue
+			}
+			node.ArtifactType = info.artifactType
+			node.Annotations = info.annotations
+		default:
+			continue
+		}
+		// only keep nodes of "application/vnd.cncf.notary.signature"
+		if node.ArtifactType == ArtifactTypeNotation {
+			results = append(results, node)
+		}
+	}
+'''
+INFO_CAP = '\tif node.Size > maxManifestSizeLimit {\n\t\treturn referrerInfo{}, fmt.Errorf("referrer node too large: %d bytes", node.Size)\n\t}\n'
+INFO_IMG_DEC = '\tvar image ocispec.Manifest\n\tif err := json.Unmarshal(fetched, &image); err != nil {\n\t\treturn referrerInfo{}, err\n\t}\n'
+
+VARIANTS += [
+ dict(name='shape-referrer-info-helper', file=R, expect='silent', find=LOOP0, replace=LOOP_INFO, edits=[tail(INFO_HELPER)]),
+ dict(name='shape-referrer-info-helper-cap-lost', file=R, expect='flagged(cap)', find=LOOP0, replace=LOOP_INFO, edits=[tail(sub(INFO_HELPER, INFO_CAP, ''))]),
+ dict(name='shape-referrer-info-helper-decode-swapped', file=R, expect='flagged(list/artifact-manifest/decode)', find=LOOP0, replace=LOOP_INFO,
+      edits=[tail(sub(INFO_HELPER, '\tif node.MediaType == artifactspec.MediaTypeArtifactManifest {', '\tif node.MediaType != artifactspec.MediaTypeArtifactManifest {'))],
+      why='inside the helper artifact manifests are decoded as image manifests and vice versa'),
+ dict(name='shape-referrer-info-helper-image-type-from-artifact-type-field', file=R, expect='flagged(list/image-manifest/artifact-type-origin)', find=LOOP0, replace=LOOP_INFO,
+      edits=[tail(sub(INFO_HELPER, 'artifactType: image.Config.MediaType,', 'artifactType: image.ArtifactType,'))]),
+ dict(name='shape-referrer-info-helper-decode-error-ignored', file=R, expect='flagged(list/image-manifest/decode)', find=LOOP0, replace=LOOP_INFO,
+      edits=[tail(sub(INFO_HELPER, INFO_IMG_DEC, '\tvar image ocispec.Manifest\n\t_ = json.Unmarshal(fetched, &image)\n'))]),
+ dict(name='shape-referrer-info-helper-error-ignored-by-caller', file=R, expect='flagged(list/)', find=LOOP0,
+      replace=sub(LOOP_INFO, '\t\tinfo, err := fetchReferrerInfo(ctx, target, node)\n\t\tif err != nil {\n\t\t\treturn nil, err\n\t\t}\n', '\t\tinfo, _ := fetchReferrerInfo(ctx, target, node)\n'),
+      edits=[tail(INFO_HELPER)]),
+ dict(name='shape-referrer-info-helper-subject-is-config', file=R, expect='flagged(list/image-manifest/subject-equality)', find=LOOP0, replace=LOOP_INFO,
+      edits=[tail(sub(INFO_HELPER, 'subject:      image.Subject,', 'subject:      &image.Config,'))],
+      why='the record\'s subject is not the decoded manifest\'s subject: the caller\'s test compares something else'),
+ dict(name='shape-referrer-info-helper-annotations-of-node', file=R, expect='flagged(list/artifact-manifest/annotations)', find=LOOP0, replace=LOOP_INFO,
+      edits=[tail(sub(INFO_HELPER, 'annotations:  artifact.Annotations,', 'annotations:  node.Annotations,'))]),
+ dict(name='shape-referrer-info-helper-type-forced-by-caller', file=R, expect='flagged(artifact-type)', find=LOOP0,
+      replace=sub(LOOP_INFO, '\t\tif info.artifactType != ArtifactTypeNotation {', '\t\tif info.artifactType == "" {\n\t\t\tinfo.artifactType = ArtifactTypeNotation\n\t\t}\n\t\tif info.artifactType != ArtifactTypeNotation {'),
+      edits=[tail(INFO_HELPER)], why='the caller rewrites the record before the filter: referrers without a type pass'),
+ dict(name='shape-referrer-info-helper-filter-dropped', file=R, expect='flagged(artifact-type)', find=LOOP0,
+      replace=sub(LOOP_INFO, '\t\tif info.artifactType != ArtifactTypeNotation {\n\t\t\tcontinue\n\t\t}\n', ''), edits=[tail(INFO_HELPER)]),
+ dict(name='shape-referrer-info-helper-subject-unchecked', file=R, expect='flagged(subject-equality)', find=LOOP0,
+      replace=sub(LOOP_INFO, '\t\tif info.subject == nil || !content.Equal(*info.subject, desc) {\n\t\t\tcontinue\n\t\t}\n', ''), edits=[tail(INFO_HELPER)]),
+ dict(name='shape-referrer-info-helper-any-media-type', file=R, expect='flagged(list/only-manifest-media-types)', find=LOOP0,
+      replace=sub(LOOP_INFO, '\t\tif node.MediaType != artifactspec.MediaTypeArtifactManifest && node.MediaType != ocispec.MediaTypeImageManifest {\n\t\t\t// not a manifest that can refer to a subject\n\t\t\tcontinue\n\t\t}\n', ''),
+      edits=[tail(INFO_HELPER)]),
+ dict(name='shape-referrer-info-helper-shared-decode-target', file=R, expect='flagged(list/image-manifest/decode)', find=LOOP0, replace=LOOP_INFO,
+      edits=[tail(sub(INFO_HELPER, INFO_IMG_DEC, '\timage := &sharedImageManifest\n\tif err := json.Unmarshal(fetched, image); err != nil {\n\t\treturn referrerInfo{}, err\n\t}\n') + '\nvar sharedImageManifest ocispec.Manifest\n')],
+      why='the helper decodes into a package-level variable: fields the next manifest omits keep the previous referrer\'s values'),
+ dict(name='shape-referrer-info-helper-fetches-other-descriptor', file=R, expect='flagged(list/)', find=LOOP0,
+      replace=sub(LOOP_INFO, 'fetchReferrerInfo(ctx, target, node)', 'fetchReferrerInfo(ctx, target, predecessors[0])'), edits=[tail(INFO_HELPER)],
+      why='the helper is handed another descriptor than the current referrer'),
+ # the record by pointer
+ dict(name='shape-referrer-info-pointer', file=R, expect='silent', find=LOOP0, replace=LOOP_INFO, edits=[tail(INFO_HELPER_PTR)]),
+ dict(name='shape-referrer-info-pointer-type-forced-by-caller', file=R, expect='flagged(artifact-type)', find=LOOP0,
+      replace=sub(LOOP_INFO, '\t\tif info.artifactType != ArtifactTypeNotation {', '\t\tif info.artifactType == "" {\n\t\t\tinfo.artifactType = ArtifactTypeNotation\n\t\t}\n\t\tif info.artifactType != ArtifactTypeNotation {'),
+      edits=[tail(INFO_HELPER_PTR)]),
+ dict(name='shape-referrer-info-pointer-image-type-from-artifact-type-field', file=R, expect='flagged(list/image-manifest/artifact-type-origin)', find=LOOP0, replace=LOOP_INFO,
+      edits=[tail(sub(INFO_HELPER_PTR, 'artifactType: image.Config.MediaType,', 'artifactType: image.ArtifactType,'))]),
+ # several results
+ dict(name='shape-referrer-fields-results', file=R, expect='silent', find=LOOP0, replace=LOOP_MULTI, edits=[tail(MULTI_HELPER)]),
+ dict(name='shape-referrer-fields-results-image-type-from-artifact-type-field', file=R, expect='flagged(list/image-manifest/artifact-type-origin)', find=LOOP0, replace=LOOP_MULTI,
+      edits=[tail(sub(MULTI_HELPER, 'return image.Subject, image.Config.MediaType, image.Annotations, nil', 'return image.Subject, image.ArtifactType, image.Annotations, nil'))]),
+ dict(name='shape-referrer-fields-results-subject-of-other-arm', file=R, expect='flagged(list/artifact-manifest/subject-equality)', find=LOOP0, replace=LOOP_MULTI,
+      edits=[tail(sub(MULTI_HELPER, 'return artifact.Subject, artifact.ArtifactType, artifact.Annotations, nil', 'return &node, artifact.ArtifactType, artifact.Annotations, nil'))],
+      why='the subject handed back is the referrer\'s own descriptor, not the decoded subject'),
+ dict(name='shape-referrer-fields-results-cap-after-fetch', file=R, expect='flagged(cap-before-fetch)', find=LOOP0, replace=LOOP_MULTI,
+      edits=[tail(sub(sub(MULTI_HELPER, '\tif node.Size > maxManifestSizeLimit {\n\t\treturn nil, "", nil, fmt.Errorf("referrer node too large: %d bytes", node.Size)\n\t}\n', ''),
+                      '\tswitch node.MediaType {\n', '\tif node.Size > maxManifestSizeLimit {\n\t\treturn nil, "", nil, fmt.Errorf("referrer node too large: %d bytes", node.Size)\n\t}\n\tswitch node.MediaType {\n'))]),
+ # the helper around the decode only
+ dict(name='shape-referrer-decode-helper', file=R, expect='silent', find=LOOP0, replace=LOOP_DECODE, edits=[tail(DECODE_HELPER)]),
+ dict(name='shape-referrer-decode-helper-fixed-media-type', file=R, expect='flagged(list/artifact-manifest/decode)', find=LOOP0,
+      replace=sub(LOOP_DECODE, 'decodeReferrer(node.MediaType, fetched)', 'decodeReferrer(ocispec.MediaTypeImageManifest, fetched)'), edits=[tail(DECODE_HELPER)],
+      why='every referrer is decoded as an image manifest'),
+ dict(name='shape-referrer-decode-helper-other-bytes', file=R, expect='flagged(decode)', find=LOOP0,
+      replace=sub(LOOP_DECODE, 'decodeReferrer(node.MediaType, fetched)', 'decodeReferrer(node.MediaType, fetched[:len(fetched)/2])'), edits=[tail(DECODE_HELPER)]),
+ dict(name='shape-referrer-decode-helper-cap-dropped', file=R, expect='flagged(cap)', find=LOOP0,
+      replace=sub(LOOP_DECODE, '\t\tif node.Size > maxManifestSizeLimit {\n\t\t\treturn nil, fmt.Errorf("referrer node too large: %d bytes", node.Size)\n\t\t}\n', ''), edits=[tail(DECODE_HELPER)]),
+ dict(name='shape-referrer-decode-helper-decode-swapped', file=R, expect='flagged(list/image-manifest/decode)', find=LOOP0, replace=LOOP_DECODE,
+      edits=[tail(sub(DECODE_HELPER, '\tif manifestMediaType == ocispec.MediaTypeImageManifest {', '\tif manifestMediaType != ocispec.MediaTypeImageManifest {'))]),
+ # one helper per switch arm
+ dict(name='shape-referrer-arm-helpers', file=R, expect='silent', find=LOOP0, replace=LOOP_ARMS, edits=[tail(ARM_HELPERS)]),
+ dict(name='shape-referrer-arm-helpers-crossed', file=R, expect='flagged(list/artifact-manifest/decode)', find=LOOP0,
+      replace=sub(LOOP_ARMS, 'info, err := artifactReferrerInfo(ctx, target, node)', 'info, err := imageReferrerInfo(ctx, target, node)'), edits=[tail(ARM_HELPERS)],
+      why='the artifact-manifest arm calls the image-manifest helper'),
+ dict(name='shape-referrer-arm-helpers-image-subject-unchecked', file=R, expect='flagged(list/image-manifest/subject-equality)', find=LOOP0,
+      replace=LOOP_ARMS.replace('\t\t\tif info.subject == nil || !content.Equal(*info.subject, desc) {\n\t\t\t\tcontinue\n\t\t\t}\n\t\t\tnode.ArtifactType = info.artifactType\n\t\t\tnode.Annotations = info.annotations\n\t\tdefault:', '\t\t\tnode.ArtifactType = info.artifactType\n\t\t\tnode.Annotations = info.annotations\n\t\tdefault:'),
+      edits=[tail(ARM_HELPERS)]),
+ # combined with the first pass's shapes: own fetch + own equality inside/around the helper
+ dict(name='shape-combined-info-helper-own-fetch-own-equal', file=R, expect='silent', find=LOOP0,
+      replace=LOOP_INFO.replace('content.Equal(', 'sameContent('),
+      edits=[(R, 'content.FetchAll(ctx, fetcher, sigBlobDesc)', 'fetchVerified(ctx, fetcher, sigBlobDesc)'),
+             (R, 'content.FetchAll(ctx, fetcher, sigManifestDesc)', 'fetchVerified(ctx, fetcher, sigManifestDesc)'),
+             tail(INFO_HELPER.replace('content.FetchAll(', 'fetchVerified(') + '\n' + FETCHV + '\n' + SAMEC)]),
+ dict(name='shape-combined-info-helper-own-fetch-own-equal-digest-omitted', file=R, expect='flagged(subject-equality)', find=LOOP0,
+      replace=LOOP_INFO.replace('content.Equal(', 'sameContent('),
+      edits=[(R, 'content.FetchAll(ctx, fetcher, sigBlobDesc)', 'fetchVerified(ctx, fetcher, sigBlobDesc)'),
+             (R, 'content.FetchAll(ctx, fetcher, sigManifestDesc)', 'fetchVerified(ctx, fetcher, sigManifestDesc)'),
+             tail(INFO_HELPER.replace('content.FetchAll(', 'fetchVerified(') + '\n' + FETCHV + '\n' + sub(SAMEC, ' && a.Digest == b.Digest', ''))]),
+]
